@@ -1,6 +1,7 @@
 """C15 - array, object and string functions obey their sequence/map/string contracts under histories.
 Oracle: RefSeq/RefMap/RefStr (vf/ref_seq.py) replayed on a shadow pool with the same aliasing; the script logs the
 result and the whole pool after every step, so effects through every alias and on failing calls are observed."""
+import copy
 import json
 import math
 import random
@@ -61,6 +62,8 @@ def lit(v):
         return "'" + v.replace('\\', '\\\\').replace("'", "\\'") + "'"
     if isinstance(v, list):
         return 'arrayNew(' + ', '.join(lit(x) for x in v) + ')'
+    if isinstance(v, dict) and all(isinstance(k, str) for k in v):
+        return 'objectNew(' + ', '.join(lit(k) + ', ' + lit(x) for k, x in v.items()) + ')'
     raise TypeError(v)
 
 
@@ -160,6 +163,14 @@ def gen_history(rnd, nops):
                     add(rnd.choice(['a', 'b', 'c', 'd', 'zz', '10', '2', '0', '-1', '1.5']))
                 elif c == 'c':
                     add(rnd.choice([65, 97, 0x1F600, 48, -1, 1.5, 'a']))
+                elif c == 'v' and rnd.random() < 0.1 and any(isinstance(x, dict) and len(x) >= 2 for x in pool.values()):
+                    # an EQUAL object built with its keys in another insertion order (a fresh value, not a member of the pool)
+                    src = rnd.choice([x for _, x in sorted(pool.items()) if isinstance(x, dict) and len(x) >= 2])
+                    try:
+                        json.dumps(src)
+                        add(dict(reversed(list(copy.deepcopy(src).items()))))
+                    except (TypeError, ValueError):
+                        add(scalar(rnd))
                 elif c == 'v':
                     if rnd.random() < 0.25:
                         k = rnd.choice(sorted(pool))
@@ -427,6 +438,18 @@ def run_escapes(spec, acc, api):
                 acc.violation('urlEncode-not-reversible', f'{fn}({s!r}) = {enc!r} -> {urllib.parse.unquote(enc)!r}', case)
             if not re.fullmatch(r"[A-Za-z0-9_.~\-%':/&+]*", enc):
                 acc.violation('urlEncode-unsafe-output', f'{fn}({s!r}) = {enc!r}', case)
+            acc.count('url_encode_checks')
+    # a string with an unpaired surrogate (stringFromCharCode(55357) builds one) has no UTF-8 form: the encoders answer null - never a
+    # text that decodes to something else
+    for s in ('a\ud83db', '\ud800', 'x\udfff', '\udc00tail', 'ok\ud83d'):
+        for fn in ('urlEncode', 'urlEncodeComponent'):
+            acc.case(('lone-surrogate', fn, s.encode('utf-16', 'surrogatepass').hex()), True)
+            try:
+                enc = lib[fn]([s], None)
+            except Exception as exc:  # pylint: disable=broad-except
+                enc = None if type(exc).__name__ in ('UnicodeEncodeError', 'ValueArgsError') else exc
+            if enc is not None and not (isinstance(enc, str) and urllib.parse.unquote(enc, errors='surrogatepass') == s):
+                acc.violation('urlEncode-not-reversible', f'{fn}(<string with an unpaired surrogate>) = {enc!r}', {'s': s.encode('utf-16', 'surrogatepass').hex()})
             acc.count('url_encode_checks')
     # wrong-typed arguments
     for fn in ('regexEscape', 'urlEncode', 'urlEncodeComponent'):
